@@ -1780,7 +1780,6 @@ package ucfg
 //@ props C13 C07
 //@ sweep
 //@ requires opts != nil && cfg != nil
-//@ requires allocated(rvRootOf(chasedP(orig))) && rvRootOf(chasedP(orig)) != pointeeStore()
 //@ modifies *
-//@ ensures [untouched_on_error] result != nil ==> rvver(rvRootOf(chasedP(orig))) == old(rvver(rvRootOf(chasedP(orig))))
-//@ loop 1 invariant rvver(rvRootOf(chasedP(entry(orig)))) == old(rvver(rvRootOf(chasedP(entry(orig)))))
+//@ ensures [untouched_on_error] result != nil && old(allocated(rvRootOf(chasedP(orig)))) && rvRootOf(chasedP(orig)) != pointeeStore() ==> rvver(rvRootOf(chasedP(orig))) == old(rvver(rvRootOf(chasedP(orig))))
+//@ loop 1 invariant old(allocated(rvRootOf(chasedP(entry(orig))))) && rvRootOf(chasedP(entry(orig))) != pointeeStore() ==> rvver(rvRootOf(chasedP(entry(orig)))) == old(rvver(rvRootOf(chasedP(entry(orig)))))
